@@ -4,7 +4,7 @@
     with no errors or at least one syntax error; nesting up to the depth CPython accepts (200) is handled, deeper
     nesting (beyond the parser's limit) is reported as an error instead of overflowing the stack. *)
 From Coq Require Import List Arith Bool.
-Require Import ErgV.ParseDepth.Model.
+Require Import ErgV.ParseDepth.Model .
 Import ListNotations.
 
 (** ---- nesting families (single spine: every construct contains exactly one construct) *)
@@ -17,30 +17,32 @@ Inductive kind : Type :=
 | KCall      (* f( e )     *)
 | KCallNp    (* f e        *)
 | KSubscr    (* a[ e ]     *)
-| KMul.      (* 2 ( e )    *)
+| KMul       (* 2 ( e )    *)
+| KLamBlock. (* x ->⏎ e   the body is an indented block (the dedents come at the end of the program) *)
 
 Definition opener (k : kind) : list tok :=
   match k with
   | KParen => [LP] | KList => [LS] | KSet => [LB] | KUnary => [PRE] | KLambda => [SYM; ARROW]
   | KCall => [SYM; LPg] | KCallNp => [SYM] | KSubscr => [SYM; LSg] | KMul => [NAT; LP]
+  | KLamBlock => [SYM; ARROW; NL; IND]
   end.
 Definition closer (k : kind) : list tok :=
   match k with
-  | KParen | KCall | KMul => [RP] | KList | KSubscr => [RS] | KSet => [RB] | KUnary | KLambda | KCallNp => []
+  | KParen | KCall | KMul => [RP] | KList | KSubscr => [RS] | KSet => [RB] | KUnary | KLambda | KCallNp | KLamBlock => []
   end.
 
-(** the token stream of the one-line program that nests the constructs [ks] (outermost first) around `1` *)
-Fixpoint spine (ks : list kind) : list tok :=
+(** the token stream of the one-line program that nests the constructs [ks] (outermost first) around `1`,
+    followed by [rest] *)
+Fixpoint spine_on (ks : list kind) (rest : list tok) : list tok :=
   match ks with
-  | [] => [NAT]
-  | k :: r => opener k ++ spine r ++ closer k
+  | [] => NAT :: rest
+  | k :: r => opener k ++ spine_on r (closer k ++ rest)
   end.
-Definition nest (ks : list kind) : list tok := spine ks ++ [NL; EOF].
+Definition nest (ks : list kind) : list tok := spine_on ks [NL; EOF].
 Definition uniform (k : kind) (n : nat) : list tok := nest (repeat k n).
 
-(** [n] lambdas whose bodies are indented blocks:  x ->⏎ x ->⏎  ...  1 *)
-Fixpoint lam_open (n : nat) : list tok := match n with O => [] | S m => SYM :: ARROW :: NL :: IND :: lam_open m end.
-Definition lamblock (n : nat) : list tok := lam_open n ++ [NAT; NL] ++ repeat DED n ++ [EOF].
+(** [n] lambdas whose bodies are indented blocks, as the lexer delivers them:  x ->⏎ x ->⏎  ...  1⏎ dedents *)
+Definition lamblock (n : nat) : list tok := spine_on (repeat KLamBlock n) (NL :: repeat DED n ++ [EOF]).
 
 (** number of nested constructs of a well-nested program *)
 Definition nesting (ks : list kind) : nat := length ks.
